@@ -45,8 +45,10 @@ def build_shim():
 # --------------------------------------------------------------------------- recordings
 
 def spec(writes, dtype="i2", srn=100, srd=1, file_cadence_ms=1000, subdir_cadence=2, start_sec=1500000000,
-         continuous=0, nsub=1, is_complex=0, compression=0, checksum=0, name=""):
-    return {"name": name, "dtype": dtype, "srn": srn, "srd": srd, "file_cadence_ms": file_cadence_ms,
+         continuous=0, nsub=1, is_complex=0, compression=0, checksum=0, name="", deep=0):
+    """deep=1: the recording is made under a channel directory whose path is more than 300 characters long
+    (well inside the library's 1024-character limit)"""
+    return {"name": name, "deep": deep, "dtype": dtype, "srn": srn, "srd": srd, "file_cadence_ms": file_cadence_ms,
             "subdir_cadence": subdir_cadence, "start": -(-start_sec * srn // srd), "continuous": continuous,
             "nsub": nsub, "is_complex": is_complex, "compression": compression, "checksum": checksum,
             "writes": [list(w) for w in writes]}
@@ -562,6 +564,9 @@ def baseline(res, sp, snapshots=False):
     b.sp = sp
     b.work = common.scratch_dir("proto-")
     b.top = os.path.join(b.work, "top")
+    if sp.get("deep"):
+        b.top = os.path.join(b.work, "d" * 100, "e" * 100, "f" * 70, "top")
+        os.makedirs(os.path.dirname(b.top))
     b.log = os.path.join(b.work, "log.txt")
     b.snap = os.path.join(b.work, "snap") if snapshots else None
     if b.snap:
